@@ -417,6 +417,13 @@ func (n *Net) answer(s network.Stream, req *p2p_pb.HeaderRequest, a Answer) {
 		}
 		_ = writeResp(s, h, p2p_pb.StatusCode(7))
 		_ = s.Close()
+	case "negative-status": // the status code is a signed enum on the wire
+		var h *vk.H
+		if len(base) > 0 {
+			h = base[0]
+		}
+		_ = writeResp(s, h, p2p_pb.StatusCode(-1))
+		_ = s.Close()
 	case "invalid-status": // status 0 with a proper body
 		var h *vk.H
 		if len(base) > 0 {
